@@ -38,6 +38,7 @@ type c07Stream struct {
 	wbuf    []byte
 	closedLocal bool
 	peerClosed  bool   // the peer called Close on its end of this stream
+	lateBytes   int    // bytes at the tail of pipeIn that the peer flushed AFTER that Close (the server re-created the id)
 	eosSeen bool
 }
 
@@ -65,6 +66,7 @@ func (l *c07ListenCB) OnNewStream(s *Stream) {
 	if old != nil {
 		// a new stream object for an id the server had closed: what the peer flushed and was never consumed is still owed
 		ns.pipeIn = old.pipeIn
+		ns.lateBytes, ns.peerClosed = old.lateBytes, old.peerClosed
 	}
 	l.e.streams[int(s.id)] = ns
 }
@@ -195,7 +197,10 @@ func (c *c07Run) readResult(x string, id int, op string, n int, data []byte, cnt
 			return "timeout"
 		case ErrEndOfStream:
 			// S (C07): end-of-stream only after every byte the peer flushed successfully before closing was offered
-			if owed := len(s.pipeIn) - s.st.recvBuf.Len(); owed > 0 && !s.closedLocal {
+			if s.lateBytes > len(s.pipeIn) {
+				s.lateBytes = len(s.pipeIn)
+			}
+			if owed := len(s.pipeIn) - s.lateBytes - s.st.recvBuf.Len(); owed > 0 && !s.closedLocal {
 				c.setFail("eos-before-data", fmt.Sprintf("stream %d on %s: reader is told end-of-stream while %d byte(s) the peer flushed before closing have not been offered (they are not in the read buffer)", id, x, owed))
 			}
 			c.tags["eos"] = true
@@ -454,6 +459,11 @@ func c07Exec(ops []string, prop string) vResult {
 						p.streams[id] = ps
 					}
 					ps.pipeIn = append(ps.pipeIn, s.wbuf...)
+					if ps.peerClosed {
+						// flushed on a stream object the server created for this id after its first object was closed: these
+						// bytes come after the close notification, the reader may rightly be told end-of-stream before them
+						ps.lateBytes += len(s.wbuf)
+					}
 					if r == "fallback" {
 						c.inflK[x] = append(c.inflK[x], c07Msg{id, len(s.wbuf)})
 					} else {
